@@ -31,13 +31,14 @@ def run(ctx):
              "(every record type in every section, pairs of types, absent/null/empty sections), each through json.Marshal -> Unmarshal -> Analyze -> Marshal -> Unmarshal -> Summarize / Represent with recover; "
              "the representation must be a JSON object whose request/response parts are lists of table|body sections with parseable table data; time within a linear budget; "
              "DNS: model (Shape/Dns.v) vs implementation on well-formed and deviating entries; "
-             "redis/amqp/kafka static part: Summarize/Represent translated from the source into access programs, request/response shapes derived by reflection from the emitted Go values, "
+             "redis/amqp/kafka/http/dns static part: Summarize/Represent translated from the source into access programs, request/response shapes derived by reflection from the emitted Go values, "
              "the checker accepts every program for every alternative (Properties/C11_static.v); tie: every emitted item's stage inputs conform to an alternative and the model gives the observed outcome, "
              "single-point deviations of emitted items and of shape witnesses give the same outcome and panic site in model and implementation",
         assumptions=["DNS entries have the shape the worker builds: at least one question; every record carries all string fields and a numeric ttl"],
         trusted=["harness/stage and the families' stage modes (recover around every stage, form check of the representation)",
-                 "modelled, not verified: encoding/json (dynamic types after unmarshalling); the later stages of the HTTP extension are explored, not modelled; "
-                 "Analyze of redis/amqp/kafka is not translated (its effect on the maps is observed on probe items when the shapes are derived)"])
+                 "modelled, not verified: encoding/json (dynamic types after unmarshalling); "
+                 "Analyze of redis/amqp/kafka/http is not translated (its effect on the maps is observed on probe items, for http encoded by rule, when the shapes are derived); "
+                 "the dns entry shape is written down by rule (entries are built outside this repository)"])
 
 
 def replay(ctx, path):
